@@ -188,6 +188,87 @@ def run(ctx):
     ctx.ob("C07.row-prefix", ok, "a binary row packet must carry exactly one 00 header byte in front of the bitmap: write_col (column 0) writes %s, end_row writes %s" % (sorted(hdr_in_wc), sorted(hdr_in_er)),
            fn=er.path, construct="row-header-once", where=er.where(0))
 
+    # ---- NULL forwarding by wrapper impls ---------------------------------------------------------------
+    # write_col decides "bitmap bit or encoder" from v.is_null().  An impl whose binary encoder hands the work to an inner value
+    # that may itself be NULL (a generic parameter, or a type whose impl overrides is_null) must answer is_null() with the inner
+    # value's answer: otherwise the NULL reaches the inner encoder (which cannot encode it: `unreachable!()` / a panic) and its
+    # bit is not set.  Decided per impl from the impl table: (a) nullable delegations of to_mysql_bin, (b) every return path of
+    # is_null is `true`, the inner is_null(), or `false` only under a discriminant of self on which (a) has no delegation.
+    ctx.rule("C07.null-forwarding", "an impl whose to_mysql_bin delegates to a possibly-NULL inner value returns the inner is_null() (or true) from is_null()")
+    impls = [i for i in prog.impls if (i.get("trait_path") or "").endswith("value::encode::ToMysqlValue")]
+    ctx.floor("C07.null-forwarding", "impls of ToMysqlValue", len(impls), 20)
+    overrides = {i["self_ty"] for i in impls if any(m.endswith("::is_null") for m in i["methods"])}
+
+    def self_discr_on(p):
+        ds = set()
+        for _, _, v, truth in p.decisions():
+            pass
+        for i_, blk in enumerate(p.blocks[:-1]):
+            t_ = p.body.term(blk)
+            if t_["k"] != "switch":
+                continue
+            v = p.origin_op(t_["discr"], i_)
+            if isinstance(v, tuple) and v[0] == "discr" and T.find(v[1], lambda x: T.is_param(x, 1)) is not None:
+                nxt = p.blocks[i_ + 1]
+                vals = [int(x) for x, tg in zip(t_["vals"], t_["tgts"]) if tg == nxt and x != "otherwise"]
+                ds.add(tuple(vals) if vals else ("otherwise", tuple(sorted(int(x) for x in t_["vals"] if x != "otherwise"))))
+        return ds
+
+    n_wrap = 0
+    for imp in impls:
+        mb = [m for m in imp["methods"] if m.endswith("::to_mysql_bin")]
+        if not mb or mb[0] not in prog.bodies:
+            continue
+        b = prog.bodies[mb[0]]
+        dele_paths = []
+        has_dele = False
+        for p in enumerate_paths(b, max_visits=1):
+            for pos, blk, t in p.calls():
+                f = t["func"]
+                if f.get("name") == "to_mysql_bin" and (f.get("trait") or "").endswith("ToMysqlValue") and (f.get("rpath") is None or f.get("rimpl_self") in overrides):
+                    has_dele = True
+                    dele_paths.append(self_discr_on(p))
+        if not has_dele:
+            continue
+        n_wrap += 1
+        ctx.fn(b)
+        mn = [m for m in imp["methods"] if m.endswith("::is_null")]
+        if not mn or mn[0] not in prog.bodies:
+            ctx.ob("C07.null-forwarding", False, "impl ToMysqlValue for %s hands to_mysql_bin to an inner value that may be NULL but keeps the default is_null() == false: "
+                   "a NULL offered through it is encoded instead of marked in the bitmap" % imp["self_ty"], fn=b.path, construct="is_null-missing", where=b.where(0))
+            continue
+        nb = prog.bodies[mn[0]]
+        ctx.fn(nb)
+
+        def verdict(body, rv):
+            rv0 = T.peel(rv) if rv is not None else None
+            if T.is_const_int(rv, 1) or (isinstance(rv, tuple) and rv[0] == "const" and rv[1] == ("bool", True)):
+                return "true"
+            if T.is_const_int(rv, 0) or (isinstance(rv, tuple) and rv[0] == "const" and rv[1] == ("bool", False)):
+                return "false"
+            if T.is_call(rv, r"ToMysqlValue::is_null$|ToMysqlValue>::is_null$"):
+                return "inner"
+            if T.is_call(rv, r"Option::<T>::(map_or|is_none_or|is_some_and)$"):
+                clo = [a for a in rv[2] if isinstance(a, tuple) and a[0] == "agg" and a[1] == "closure"]
+                dflt = [a for a in rv[2] if verdict(body, a) == "true"]
+                if clo and (dflt or rv[1].endswith("is_none_or")):
+                    cb = prog.bodies.get(clo[0][2])
+                    if cb is not None and all(verdict(cb, q.return_value()) in ("true", "inner") for q in enumerate_paths(cb) if q.end == "return"):
+                        return "inner"
+            return "other"
+        for q in enumerate_paths(nb):
+            if q.end != "return":
+                continue
+            vd = verdict(nb, q.return_value())
+            ok = vd in ("true", "inner")
+            if vd == "false":
+                mine = self_discr_on(q)
+                ok = bool(mine) and all(not (mine & d) and d for d in dele_paths)
+            ctx.ob("C07.null-forwarding", ok, "impl ToMysqlValue for %s: is_null() returns %s on a path on which to_mysql_bin may hand a NULL inner value to its encoder "
+                   "(need the inner value's is_null(), or true)" % (imp["self_ty"], term_str(q.return_value())[:80]),
+                   fn=nb.path, construct="is_null-forwards", where=nb.where(q.blocks[-1]), sample={"rule": "null-forwarding", "impl": imp["self_ty"], "verdict": vd})
+    ctx.floor("C07.null-forwarding", "wrapper impls (to_mysql_bin delegating to a possibly-NULL inner value)", n_wrap, 2)
+
     # ---- layouts ------------------------------------------------------------------------------------
     ct = [a for k_, a in prog.adts.items() if k_.endswith("constants::ColumnType")][0]
     ct_names = {int(v["discr"]): v["name"] for v in ct["variants"]}
